@@ -456,4 +456,70 @@ example : ∃ cs, emit false .direct .sift pchipUser = .ok cs ∧
     (cs.filter (·.stage = .gni)).map (fun c => (imfOptsOf c.args).toOption.map (fun o => (o.energyThresh, o.maxIters, o.step))) =
       [some (none, 1000, 1)] := ⟨_, rfl, by decide +kernel⟩
 
+/-! ### both deliveries combined: a partial sift function AND `sift_args` (second layer)
+
+  `sift_second_layer(IA, sift_func=cfg.get_func(), sift_args={…})` calls `partial(inner, **cfg)(IA[:, ii], **sift_args)`.
+  Ordinary `functools.partial` semantics: a keyword supplied at call time replaces the frozen one.  A merge in the
+  other direction (`sift_args.update(sift_func.keywords)`, seeded C06-5) contradicts the two theorems below. -/
+
+/-- `partial(f, **frozen)(x, **call)`: a keyword the call supplies is used as supplied; a frozen keyword the call does
+    not repeat stays. -/
+theorem partial_call_keywords_win (frozen call : Assoc) (hn : NodupKeys call) (p : Key) :
+    (∀ v, call.lookup p = some v → (mergeKw frozen call).lookup p = some v) ∧
+    (call.lookup p = none → (mergeKw frozen call).lookup p = frozen.lookup p) := by
+  rw [lookup_mergeKw frozen call hn p]
+  exact ⟨fun v h => by rw [h]; rfl, fun h => by rw [h]; rfl⟩
+
+/-- **The option dictionaries passed in `sift_args` govern the stages although the sift function is a `get_func`
+    partial that holds (default) dictionaries of its own** — for every configurable inner sift, every top-level
+    keyword frozen in the partial and every user dictionary: all stage calls obey the user's options exactly as on
+    the three plain routes (`stage_opts_effective`). -/
+theorem funcArgs_stage_opts_effective (inner : Variant) (u : User) (hu : WF u) (hcf : Configurable inner)
+    (cs : List StageCall) (h : emitFuncArgs false inner u = .ok cs) :
+    Obeys (optA u.imf) (optA u.env) (optA u.ext) cs := by
+  obtain ⟨c1, c2, c3, c4⟩ := cfg_facts (baseVariant inner) hcf
+  obtain ⟨K0, hK0, k1, k2, k3, _⟩ := kwargsConfig_spec (baseVariant inner)
+    { top := u.top, imf := none, env := none, ext := none } c1 c2 c3 c4 hu.clean hu.topSlash
+    (by simp [optA, Assoc.keys]) (by simp [optA, Assoc.keys]) (by simp [optA, Assoc.keys])
+  obtain ⟨hn, l1, l2, l3⟩ := kwargsDirect_noTop u.imf u.env u.ext
+  have h' : runVariant false inner
+      (mergeKw K0 (kwargsDirect { top := .nil, imf := u.imf, env := u.env, ext := u.ext })) = .ok cs := by
+    simpa [emitFuncArgs, hK0, bind, Except.bind, runVariant] using h
+  have ob := runVariant_obeys inner h'
+  rw [(imfOf_config inner _ hcf).1] at ob
+  have e1 := lookup_mergeKw K0 _ hn "imf_opts".toList
+  have e2 := lookup_mergeKw K0 _ hn "envelope_opts".toList
+  have e3 := lookup_mergeKw K0 _ hn "extrema_opts".toList
+  rw [l1] at e1; rw [l2] at e2; rw [l3] at e3
+  simp only [kwArg] at ob k1 k2 k3
+  rw [e1, e2, e3] at ob
+  refine ob.congr ?_ ?_ ?_
+  · intro p d hp
+    cases hi : u.imf with
+    | some a => simp [dictOf, optA]
+    | none =>
+      simp only [Option.map_none, Option.orElse_none, k1, dictOf, optA, Option.getD_none]
+      exact assignA_own_lookup gniOwn gniOwn .nil (by simp [NodupKeys, Assoc.keys]) (fun _ _ h => gniOwn_self h) hp
+  · intro p d hp
+    cases hi : u.env with
+    | some a => simp [dictOf, optA]
+    | none =>
+      simp only [Option.map_none, Option.orElse_none, k2, dictOf, optA, Option.getD_none]
+      exact assignA_own_lookup ieOwn envDefaults .nil (by simp [NodupKeys, Assoc.keys]) (fun _ _ h => envDefaults_agree h) hp
+  · intro p d hp
+    cases hi : u.ext with
+    | some a => simp [dictOf, optA]
+    | none =>
+      simp only [Option.map_none, Option.orElse_none, k3, dictOf, optA, Option.getD_none]
+      exact assignA_ext_lookup .nil (by simp [NodupKeys, Assoc.keys]) hp
+
+-- non-vacuity: the partial of `get_config('sift')` holds interp_method 'splrep'; `sift_args` says 'pchip': 'pchip' it is
+example : ∃ cs, emitFuncArgs false .sift pchipUser = .ok cs ∧
+    (cs.filter (·.stage = .ie)).map (fun c => c.args.lookup "interp_method".toList) = [some (s "pchip"), some (s "pchip")] :=
+  ⟨_, rfl, rfl⟩
+example : ∃ cs, emitFuncArgs false .mask rilling3User = .ok cs ∧
+    (cs.filter (·.stage = .gni)).map (fun c => c.args.lookup "stop_method".toList) = [some (s "rilling"), some (s "rilling")] :=
+  ⟨_, rfl, rfl⟩
+example : Configurable .sift ∧ Configurable .mask := ⟨Or.inl rfl, Or.inr (Or.inr (Or.inr rfl))⟩
+
 end C06
